@@ -9,9 +9,11 @@
     (`f (k+1) / f k > 1 ⇔ k + 1 < (n+1)(K+1)/(N+2)`); over ℝ the generated `Hypergeometric.pmf` goes
     through the abstract `SF.binomial`, so the structure is the explicit premise of the `…_rel`
     theorems in `FisherTwoSided.lean`.
-  * `twoSidedM`: the `Alternative::TwoSided` arm of `fishers_exact` (fisher.rs:206–234) over abstract
+  * `twoSidedM`: the `Alternative::TwoSided` arm of `fishers_exact` (fisher.rs:206–240) over abstract
     `f`, `F`; `fishers_exact_twosided_eq` proves that the generated `fishers_exact` IS this function
-    at `f = Hypergeometric.pmf dist`, `F = Hypergeometric.cdf dist`.
+    at `f = Hypergeometric.pmf dist`, `F = Hypergeometric.cdf dist`.  The upper tail `P(X ≥ a)` is
+    `if a = 0 then 1 else 1 − F (a − 1)` as in the source (fisher.rs:229): for `a = 0` no unsigned
+    `a − 1` is formed (`fisher_twosided_zero_cell_no_underflow`, every carrier).
   * `massLE f lo hi t = Σ_{lo ≤ k ≤ hi, f k ≤ t} f k`: the textbook two-sided p-value is
     `massLE f lo hi (f a)`.
 -/
@@ -135,7 +137,7 @@ end UnimodalPmfSpec
 
 /-! ### the two-sided arm over abstract `f`, `F` -/
 
-/-- `Alternative::TwoSided` arm of `fishers_exact` (fisher.rs:206–234 and the final `.min(1.0)`)
+/-- `Alternative::TwoSided` arm of `fishers_exact` (fisher.rs:206–240 and the final `.min(1.0)`)
     with `dist.pmf = f`, `dist.cdf = F`, `n` the number of draws, `a` the observed cell and `e`
     the constant `EPSILON` -/
 noncomputable def twoSidedM (f F : ℤ → ℝ) (n mode a : ℤ) (e : ℝ) : ℝ :=
@@ -144,8 +146,9 @@ noncomputable def twoSidedM (f F : ℤ → ℝ) (n mode a : ℤ) (e : ℝ) : ℝ
     if f a / e < f n then F a
     else F a + (1.0 : ℝ) - F (usub (bsearchM f n mode (f a) e true) 1)
   else
-    if f a / e < f 0 then (1.0 : ℝ) - F (usub a 1)
-    else min ((1.0 : ℝ) - F (usub a 1) + F (bsearchM f n mode (f a) e false)) (1.0 : ℝ)
+    if f a / e < f 0 then (if a = 0 then (1.0 : ℝ) else (1.0 : ℝ) - F (usub a 1))
+    else min ((if a = 0 then (1.0 : ℝ) else (1.0 : ℝ) - F (usub a 1))
+      + F (bsearchM f n mode (f a) e false)) (1.0 : ℝ)
 
 theorem fts_ite_ok5 {ε : Type} {c1 c2 c3 c4 : Prop} [Decidable c1] [Decidable c2] [Decidable c3]
     [Decidable c4] (x1 x2 x3 x4 x5 : ℝ) :
@@ -197,5 +200,99 @@ theorem fishers_exact_twosided_eq (a b c d : ℤ) (ha : 0 ≤ a) (hb : 0 ≤ b) 
     exact fts_ite_ok5 _ _ _ _ _
 
 end bridge
+
+/-! ### a zero top-left cell never reaches `table[0] - 1` (fix of fisher.rs:227, every carrier) -/
+
+section zeroCell
+variable {α : Type} [Add α] [Sub α] [Mul α] [Div α] [Neg α] [LT α] [LE α] [BEq α]
+  [DecidableLT α] [DecidableLE α] [OfScientific α] [Inhabited α] [RFun α] [SF α]
+
+/-- **No unsigned underflow for `table[0] = 0`** (every carrier, so also IEEE `Float`, where the
+    near-mode test can fail at `a = 0 = mode` because `pmf 0` is NaN): for every table `[0, b, c, d]`
+    of non-negative counts without a zero row or column the generated two-sided arm is the
+    expression on the right, in which `usub (table[0]) 1 = usub 0 1` (the panic sentinel `panicInt`
+    of Rust's `attempt to subtract with overflow`) does not occur: the upper tail `P(X ≥ 0)` is the
+    literal `1.0`.  The only remaining `usub` is `guess − 1` on the `0 < mode` side, where
+    `guess` is the result of `binary_search(.., upper = true)`. -/
+theorem fisher_twosided_zero_cell_no_underflow (b c d : ℤ) (hb : 0 ≤ b) (hc : 0 ≤ c) (hd : 0 ≤ d)
+    (h : ¬ zeroMargin 0 b c d) :
+    T.fisher.fishers_exact (α := α) [0, b, c, d] Alternative.TwoSided
+      = (if RFun.abs (Hypergeometric.pmf (α := α) (tableDist 0 b c d) 0
+              - Hypergeometric.pmf (α := α) (tableDist 0 b c d) (tableMode 0 b c d))
+            / RFun.fmax (Hypergeometric.pmf (α := α) (tableDist 0 b c d) 0)
+                (Hypergeometric.pmf (α := α) (tableDist 0 b c d) (tableMode 0 b c d))
+            ≤ (1.0 : α) - T.fisher.EPSILON (α := α) then .ok (1.0 : α)
+        else if 0 < tableMode 0 b c d then
+          (if Hypergeometric.pmf (α := α) (tableDist 0 b c d) 0 / T.fisher.EPSILON (α := α)
+              < Hypergeometric.pmf (α := α) (tableDist 0 b c d) (0 + c) then
+            .ok (Hypergeometric.cdf (α := α) (tableDist 0 b c d) 0)
+          else .ok ((Hypergeometric.cdf (α := α) (tableDist 0 b c d) 0 + (1.0 : α))
+            - Hypergeometric.cdf (α := α) (tableDist 0 b c d)
+                (usub (T.fisher.binary_search (α := α) (0 + c) (0 + b) (c + d) (tableMode 0 b c d)
+                  (Hypergeometric.pmf (α := α) (tableDist 0 b c d) 0) (T.fisher.EPSILON (α := α)) true) 1)))
+        else if Hypergeometric.pmf (α := α) (tableDist 0 b c d) 0 / T.fisher.EPSILON (α := α)
+              < Hypergeometric.pmf (α := α) (tableDist 0 b c d) 0 then .ok (1.0 : α)
+        else .ok (RFun.fmin ((1.0 : α) + Hypergeometric.cdf (α := α) (tableDist 0 b c d)
+            (T.fisher.binary_search (α := α) (0 + c) (0 + b) (c + d) (tableMode 0 b c d)
+              (Hypergeometric.pmf (α := α) (tableDist 0 b c d) 0) (T.fisher.EPSILON (α := α)) false))
+            (1.0 : α))) := by
+  have hnew := hyper_new_ok (α := α) ((0 + b) + (c + d)) (0 + b) (0 + c) (by omega) (by omega)
+  unfold T.fisher.fishers_exact
+  unfold zeroMargin at h
+  split
+  · rename_i h0; simp at h0; exact absurd (Or.inl ⟨rfl, h0.2.1⟩) h
+  · rename_i h0; simp at h0; exact absurd (Or.inr (Or.inl ⟨h0.2.1, h0.2.2.2⟩)) h
+  · rename_i h0; simp at h0; exact absurd (Or.inr (Or.inr (Or.inl ⟨rfl, h0.1⟩))) h
+  · rename_i h0; simp at h0; exact absurd (Or.inr (Or.inr (Or.inr ⟨h0.2.2.1, h0.2.2.2⟩))) h
+  · simp only [listGet]
+    simp only [show ¬ ((0:ℤ) < 0) by omega, show ¬ ((1:ℤ) < 0) by omega, show ¬ ((2:ℤ) < 0) by omega,
+      show ¬ ((3:ℤ) < 0) by omega, if_false, Int.toNat_zero, Int.toNat_one,
+      List.getD_cons_zero, List.getD_cons_succ]
+    have e2 : ∀ z : ℤ, [0, b, c, d].getD (Int.toNat 2) z = c := fun _ => rfl
+    have e3 : ∀ z : ℤ, [0, b, c, d].getD (Int.toNat 3) z = d := fun _ => rfl
+    simp only [e2, e3, hnew]
+    have hm : udiv (((0 + c) + 1) * ((0 + b) + 1)) (((0 + b) + (c + d)) + 2) = tableMode 0 b c d := rfl
+    have hd' : (⟨(0 + b) + (c + d), 0 + b, 0 + c⟩ : Hypergeometric) = tableDist 0 b c d := rfl
+    simp only [hm, hd', if_true]
+
+/-- the same at `mode = 0` (`(c+1)(b+1) < b+c+d+2`) when the near-mode test fails — the path on
+    which the unfixed source panicked: the value is `1.0` or `min (1.0 + cdf guess) 1.0` -/
+theorem fisher_twosided_zero_cell_mode_zero (b c d : ℤ) (hb : 0 ≤ b) (hc : 0 ≤ c) (hd : 0 ≤ d)
+    (h : ¬ zeroMargin 0 b c d) (hm : tableMode 0 b c d = 0)
+    (hfar : ¬ RFun.abs (Hypergeometric.pmf (α := α) (tableDist 0 b c d) 0
+              - Hypergeometric.pmf (α := α) (tableDist 0 b c d) 0)
+            / RFun.fmax (Hypergeometric.pmf (α := α) (tableDist 0 b c d) 0)
+                (Hypergeometric.pmf (α := α) (tableDist 0 b c d) 0)
+            ≤ (1.0 : α) - T.fisher.EPSILON (α := α)) :
+    T.fisher.fishers_exact (α := α) [0, b, c, d] Alternative.TwoSided
+      = (if Hypergeometric.pmf (α := α) (tableDist 0 b c d) 0 / T.fisher.EPSILON (α := α)
+              < Hypergeometric.pmf (α := α) (tableDist 0 b c d) 0 then .ok (1.0 : α)
+        else .ok (RFun.fmin ((1.0 : α) + Hypergeometric.cdf (α := α) (tableDist 0 b c d)
+            (T.fisher.binary_search (α := α) (0 + c) (0 + b) (c + d) 0
+              (Hypergeometric.pmf (α := α) (tableDist 0 b c d) 0) (T.fisher.EPSILON (α := α)) false))
+            (1.0 : α))) := by
+  rw [fisher_twosided_zero_cell_no_underflow b c d hb hc hd h, hm, if_neg hfar,
+    if_neg (by omega : ¬ (0 : ℤ) < 0)]
+
+/-- concrete instance, the table `[0, 1, 1000, 1000]` (`mode = ⌊1001·2/2003⌋ = 0`; in `f64` the
+    pmf is `inf/inf = NaN`, every comparison is false, and before the fix `table[0] - 1` panicked):
+    on every carrier, whenever the near-mode test fails the call returns `Ok` of `1.0` or of
+    `min (1.0 + cdf guess) 1.0` -/
+example (hfar : ¬ RFun.abs (Hypergeometric.pmf (α := α) (tableDist 0 1 1000 1000) 0
+              - Hypergeometric.pmf (α := α) (tableDist 0 1 1000 1000) 0)
+            / RFun.fmax (Hypergeometric.pmf (α := α) (tableDist 0 1 1000 1000) 0)
+                (Hypergeometric.pmf (α := α) (tableDist 0 1 1000 1000) 0)
+            ≤ (1.0 : α) - T.fisher.EPSILON (α := α)) :
+    T.fisher.fishers_exact (α := α) [0, 1, 1000, 1000] Alternative.TwoSided
+      = (if Hypergeometric.pmf (α := α) (tableDist 0 1 1000 1000) 0 / T.fisher.EPSILON (α := α)
+              < Hypergeometric.pmf (α := α) (tableDist 0 1 1000 1000) 0 then .ok (1.0 : α)
+        else .ok (RFun.fmin ((1.0 : α) + Hypergeometric.cdf (α := α) (tableDist 0 1 1000 1000)
+            (T.fisher.binary_search (α := α) (0 + 1000) (0 + 1) (1000 + 1000) 0
+              (Hypergeometric.pmf (α := α) (tableDist 0 1 1000 1000) 0) (T.fisher.EPSILON (α := α)) false))
+            (1.0 : α))) :=
+  fisher_twosided_zero_cell_mode_zero 1 1000 1000 (by decide) (by decide) (by decide)
+    (by unfold zeroMargin; decide) (by decide) hfar
+
+end zeroCell
 
 end Statrs.Props.C16
